@@ -1,12 +1,12 @@
 SPECIFICATION SimSpec
 CONSTANTS
-  Configs <- T2Configs
+  Configs <- SimT2Configs
   NP = 2
   NT = 2
   LockMode = "exclusive"
   MaxCrashes = 1
   CrashPlans <- TwoCrashes
   Emit = TRUE
-INVARIANTS TypeOK AssignedOnce AtMostOnce FileOrBackupComplete CrashLosesOnlyInFlight NoLostJob RestartExact MutexInSync LockConsistent NoAbort EmitSchedule
+INVARIANTS TypeOK AssignedOnce AtMostOnce AssignedOncePerRun AtMostOncePerRun FileOrBackupComplete CrashLosesOnlyInFlight NoLostJob RestartExact MutexInSync LockConsistent NoAbort EmitSchedule
 VIEW View
 CHECK_DEADLOCK FALSE
